@@ -347,7 +347,7 @@ func Mul(a, b *Term) *Term {
 		}
 	}
 	// canonical operand order so that l*r and r*l are the same term
-	if a.String() > b.String() {
+	if a.id > b.id {
 		a, b = b, a
 	}
 	return mk("*", SInt, a, b)
